@@ -51,6 +51,11 @@ def make_pair(d):
         # a uniform grey background under both the template and its displaced copy
         tmpl = (tmpl + bg).astype(np.float32)
         img = (img + bg).astype(np.float32)
+    g = float(d.get("gain", 1.0))
+    if g != 1.0:
+        # the same physical pair in other intensity units (e.g. electron counts vs normalised densities)
+        tmpl = (tmpl * g).astype(np.float32)
+        img = (img * g).astype(np.float32)
     return tmpl, img
 
 
@@ -142,7 +147,7 @@ def judge(d):
         out.append(viol("C04/quat-not-identity", f"{tag}: quat={res.quat}"))
     # sign convention: shifting the sub-volume by -shift superimposes it on the template
     if err <= tol + 1e-6 and tol == 0.1 and d["tclass"] == "A":
-        back = ndi.shift(img.astype(np.float64), -shift, order=3, mode="constant", cval=float(d.get("bg", 0.0)))
+        back = ndi.shift(img.astype(np.float64), -shift, order=3, mode="constant", cval=float(d.get("bg", 0.0)) * float(d.get("gain", 1.0)))
         cc = ref.pearson(back, tmpl)
         if not cc >= 0.98:
             out.append(viol("C04/sign-convention", f"{tag}: corr(shift(img, -shift), template) = {cc:.3f}"))
@@ -250,8 +255,28 @@ def cases(draw, models=MODELS):
            # grey background only for the real-space models (ZNCC removes the mean, NCC pads with it); PCC/FSC work on
            # float32 spectra whose DC term would dominate the precision budget
            "bg": draw(st.sampled_from([0.0, 0.0, 5.0, -2.0, 40.0, 300.0])) if (mask == "none" and model in ("ZNCC", "NCC")) else 0.0}
+    out["gain"] = draw(st.sampled_from([1.0, 1.0, 1.0, 1e-3, 1e-4, 100.0]))
     out.update(extra)
     return out
+
+
+@st.composite
+def wide_cases(draw):
+    """search range wider than half the box (up to larger than the box), displacement well inside it"""
+    model = draw(st.sampled_from(["ZNCC", "NCC", "PCC"]))
+    shape = [draw(st.integers(14, 18)) for _ in range(3)]
+    ms = [float(draw(st.sampled_from([n // 2 + 1, n // 2 + 2, n - 1, n, n + 3]))) if draw(st.integers(0, 3)) else 2.0 for n in shape]
+    if all(m == 2.0 for m in ms):
+        ms[draw(st.integers(0, 2))] = float(shape[0] // 2 + 1)
+    blobs = []
+    for i in range(draw(st.integers(3, 4))):
+        c = [round(draw(st.floats(6.0, n - 7.0)), 3) for n in shape]
+        blobs.append({"c": c, "s": 1.0, "a": [1.0, 0.8, 0.65, 0.5][i]})
+    dd = [round(draw(st.one_of(st.floats(-2.5, 2.5), st.sampled_from([-2.0, -1.0, 0.0, 1.0, 2.0]))), 3) for _ in range(3)]
+    dd = [max(-m, min(m, v)) for v, m in zip(dd, ms)]
+    return {"model": model, "tclass": "A", "shape": shape, "max_shifts": ms, "d": dd, "dclass": "wide-range", "mask": "none", "mask_r": 0.0,
+            "cutoff": None, "tilt": None, "tilt_as": "tuple", "rot": {"cls": "identity", "rv": [0.0, 0.0, 0.0]}, "api": draw(st.sampled_from(["align", "fit"])),
+            "bg": 0.0, "blobs": blobs}
 
 
 def nontrivial(d):
@@ -265,13 +290,15 @@ def labels(d):
     return gen.parity_class(d["shape"]) + [f"model:{d['model']}", f"class:{d['tclass']}", f"d:{d['dclass']}",
                                            f"mask:{d['mask']}", "cutoff:" + ("none" if d["cutoff"] is None else "set"),
                                            "tilt:" + ("none" if d["tilt"] is None else d["tilt_as"] + "-" + d["tilt"]["axis"]),
-                                           f"api:{d['api']}", "background:grey" if d.get("bg") else "background:zero"]
+                                           f"api:{d['api']}", "background:grey" if d.get("bg") else "background:zero", f"gain:{d.get('gain', 1.0)}"]
 
 
 def engines():
     return [
         Engine("fast-models", judge, strategy=cases(["ZNCC", "NCC", "PCC"]), nontrivial=nontrivial, labels=labels,
                cases={"quick": 720, "thorough": 12000}, shards={"quick": 16, "thorough": 16}),
+        Engine("wide-range", judge, strategy=wide_cases(), nontrivial=lambda d: any(abs(v) >= 0.5 for v in d["d"]), labels=labels,
+               cases={"quick": 96, "thorough": 1500}, shards={"quick": 8, "thorough": 16}),
         Engine("fsc", judge, strategy=cases(["FSC"]), nontrivial=nontrivial, labels=labels,
                cases={"quick": 64, "thorough": 1600}, shards={"quick": 8, "thorough": 16}),
     ]
